@@ -1,5 +1,179 @@
-(* TEMPORARY (builder's, so that ./check C13 runs): the coordinator assembles the final file from
-   Properties/C13_actions.v.txt and the processor-level theorems. *)
-From Verif Require Import Base.Sx Base.GoSem Model.Actions.Subst.
-Example c13_tmp_nonvacuous : cut_apply true 2 [1;2;3]%N = Ok [1;2]%N.
-Proof. vm_compute. reflexivity. Qed.
+(* TEMPORARY copy of Properties/C13_actions.v.txt made by the builder so that ./check C13 runs; the coordinator replaces it *)
+(* C13 — no event content can crash or corrupt an action plugin: the ACTION-PLUGIN part.
+   DRAFT for the coordinator (not compiled under this name): paste into Properties/C13.v next to the
+   processor-level theorems. Only statements, each closed by [exact]; the models are in
+   Model/Actions/*.v, the proofs in Proofs/Actions/*.v.
+   "Never panics" is [<> Panic p] in the result monad of Base/GoSem.v: every Go index / slice
+   expression of the modelled code is an [idx] / [slice] that yields Panic when out of range, and a
+   loop that would not finish within its fuel yields Panic too (so fuel sufficiency is proved).
+   "Leaves the event well formed" is [wf_json]: every number node carries a JSON number (all other
+   node kinds are escaped / framed by the encoder, so any byte content is representable). *)
+From Verif Require Import Base.Sx Base.GoSem Base.Json Model.Decoders.Common
+  Model.Actions.Tree Model.Actions.Subst Model.Actions.ConvertUtf8 Model.Actions.HashNorm Model.Actions.Plugins
+  Model.Actions.Entry.
+From Verif Require Proofs.Actions.Theorems Proofs.Actions.Plugins.
+Import Proofs.Actions.Plugins.   (* sop_valid / filter_valid: what the filter parsers accept *)
+
+(* ---- modify: cfg/substitution filters ----------------------------------------------------------- *)
+Theorem c13_modify_cut_total : forall first count src p, 0 < count -> cut_apply first count src <> Panic p.
+Proof. exact Theorems.c13_modify_cut_total. Qed.
+Print Assumptions c13_modify_cut_total.
+
+Theorem c13_modify_cut_spec : forall count src, 0 < count ->
+  cut_apply true count src = Ok (if len src <? count then src else firstn (Z.to_nat count) src) /\
+  cut_apply false count src = Ok (if len src <? count then src else skipn (Z.to_nat (len src - count)) src).
+Proof. exact Theorems.c13_modify_cut_spec. Qed.
+Print Assumptions c13_modify_cut_spec.
+
+Theorem c13_modify_trim_to_total : forall mode cutset src p, cutset <> [] -> trim_to_apply mode cutset src <> Panic p.
+Proof. exact Theorems.c13_modify_trim_to_total. Qed.
+Print Assumptions c13_modify_trim_to_total.
+
+(* the unrepaired parser accepted the empty cutset: src[:len(src)+1] (fixes/C13-trim-to-empty-cutset.patch) *)
+Theorem c13_modify_trim_to_empty_cutset_refuted : exists mode src, trim_to_apply mode [] src = Panic 1.
+Proof. exact Theorems.c13_modify_trim_to_empty_cutset_refuted. Qed.
+Print Assumptions c13_modify_trim_to_empty_cutset_refuted.
+
+Theorem c13_modify_re_total : forall nsub groups sep emp indexes src dst p,
+  groups_ok nsub groups = true -> forallb (index_ok nsub (len src)) indexes = true ->
+  re_apply groups sep emp indexes src dst <> Panic p.
+Proof. exact Theorems.c13_modify_re_total. Qed.
+Print Assumptions c13_modify_re_total.
+
+Theorem c13_modify_total : forall skip_empty fops root p,
+  forallb (fun fo => forallb sop_valid (snd fo)) fops = true -> modify_do skip_empty root fops <> Panic p.
+Proof. exact Theorems.c13_modify_total. Qed.
+Print Assumptions c13_modify_total.
+
+Theorem c13_modify_tree_wf : forall skip_empty fops root root',
+  wf_json root = true -> modify_do skip_empty root fops = Ok root' -> wf_json root' = true.
+Proof. exact Theorems.c13_modify_tree_wf. Qed.
+Print Assumptions c13_modify_tree_wf.
+
+(* ---- parse_re2 ---------------------------------------------------------------------------------- *)
+Theorem c13_parse_re2_total : forall root path prefix names sm p,
+  sm = [] \/ len sm = len names -> parse_re2_do root path prefix names sm <> Panic p.
+Proof. exact Theorems.c13_parse_re2_total. Qed.
+Print Assumptions c13_parse_re2_total.
+
+Theorem c13_parse_re2_tree_wf : forall root path prefix names sm root',
+  wf_json root = true -> parse_re2_do root path prefix names sm = Ok root' -> wf_json root' = true.
+Proof. exact Theorems.c13_parse_re2_tree_wf. Qed.
+Print Assumptions c13_parse_re2_tree_wf.
+
+(* ---- json_extract ------------------------------------------------------------------------------- *)
+Theorem c13_json_extract_total : forall fmt_num prefix root path doc efs ef dup p,
+  extract_tree efs ef dup <> Panic p /\
+  forall fields, json_extract_do fmt_num prefix root path doc fields <> Panic p.
+Proof. exact Theorems.c13_json_extract_total. Qed.
+Print Assumptions c13_json_extract_total.
+
+Theorem c13_json_extract_tree_wf : forall fmt_num prefix root path doc fields root',
+  (forall r, json_number_ok (fmt_num r) = true) ->
+  wf_json root = true -> wf_json doc = true ->
+  json_extract_do fmt_num prefix root path doc fields = Ok root' -> wf_json root' = true.
+Proof. exact Theorems.c13_json_extract_tree_wf. Qed.
+Print Assumptions c13_json_extract_tree_wf.
+
+(* ---- hash --------------------------------------------------------------------------------------- *)
+Theorem c13_hash_normalizer_total : forall has data p, normalize_by_tokenizer has data <> Panic p.
+Proof. exact Theorems.c13_hash_normalizer_total. Qed.
+Print Assumptions c13_hash_normalizer_total.
+
+Theorem c13_hash_total : forall hash_of root fields rpath p, hash_do hash_of root fields rpath <> Panic p.
+Proof. exact Theorems.c13_hash_total. Qed.
+Print Assumptions c13_hash_total.
+
+Theorem c13_hash_tree_wf : forall hash_of root fields rpath root',
+  (forall n d, 0 <= hash_of n d < 2 ^ 64) ->
+  wf_json root = true -> hash_do hash_of root fields rpath = Ok root' -> wf_json root' = true.
+Proof. exact Theorems.c13_hash_tree_wf. Qed.
+Print Assumptions c13_hash_tree_wf.
+
+(* ---- convert_utf8_bytes ------------------------------------------------------------------------- *)
+Theorem c13_convert_utf8_bytes_scanner_total : forall is_graphic replace s p, convert is_graphic replace s <> Panic p.
+Proof. exact Theorems.c13_convert_utf8_bytes_scanner_total. Qed.
+Print Assumptions c13_convert_utf8_bytes_scanner_total.
+
+Theorem c13_convert_utf8_bytes_total : forall is_graphic replace paths root p,
+  convert_do is_graphic replace root paths <> Panic p.
+Proof. exact Theorems.c13_convert_utf8_bytes_total. Qed.
+Print Assumptions c13_convert_utf8_bytes_total.
+
+Theorem c13_convert_utf8_bytes_tree_wf : forall is_graphic replace paths root root',
+  wf_json root = true -> convert_do is_graphic replace root paths = Ok root' -> wf_json root' = true.
+Proof. exact Theorems.c13_convert_utf8_bytes_tree_wf. Qed.
+Print Assumptions c13_convert_utf8_bytes_tree_wf.
+
+(* ---- split -------------------------------------------------------------------------------------- *)
+Theorem c13_split_total : forall is_child root path p, split_do is_child root path <> Panic p.
+Proof. exact Theorems.c13_split_total. Qed.
+Print Assumptions c13_split_total.
+
+Theorem c13_split_tree_wf : forall is_child root path r children,
+  wf_json root = true -> split_do is_child root path = Ok (r, children) ->
+  (r = 0 \/ r = 4) /\ forallb (fun j => is_obj j && wf_json j) children = true.
+Proof. exact Theorems.c13_split_tree_wf. Qed.
+Print Assumptions c13_split_tree_wf.
+
+(* ---- shared: tree operations, number formatting, the generic layer's predicate ------------------- *)
+Theorem c13_tree_ops_wf : forall root path leaf v,
+  wf_json root = true -> wf_json leaf = true ->
+  wf_json (jremove root path) = true /\
+  wf_json (create_nested root path leaf) = true /\
+  (jdig root path = Some v -> wf_json v = true).
+Proof. exact Theorems.c13_tree_ops_wf. Qed.
+Print Assumptions c13_tree_ops_wf.
+
+Theorem c13_format_uint_number : forall n, 0 <= n < 2 ^ 64 -> json_number_ok (format_uint n) = true.
+Proof. exact Theorems.c13_format_uint_number. Qed.
+Print Assumptions c13_format_uint_number.
+
+Theorem c13_generic_predicate : forall which plugins events obs,
+  0 <= which < 30 ->
+  (c13_actions_entry which (SL [SL plugins; SL events]) obs = Agree <-> obs = SL [SZ 1]).
+Proof. exact Theorems.c13_generic_predicate. Qed.
+Print Assumptions c13_generic_predicate.
+
+(* ---- non-vacuity -------------------------------------------------------------------------------- *)
+From Coq Require Import Strings.String.
+Local Open Scope Z_scope.
+Local Open Scope list_scope.
+(* the README examples of the filters; the hypotheses of the totality theorems hold on them *)
+Example c13_modify_nonvacuous :
+  cut_apply true 10 (bs "some looooooooooooong data") = Ok (bs "some loooo")
+  /\ cut_apply false 5 (bs "some looooooooooooong data") = Ok (bs " data")
+  /\ trim_to_apply 1 (bs "{") (bs "some data {""k"":1} some data") = Ok (bs "{""k"":1} some data")
+  /\ trim_to_apply 2 (bs "}") (bs "{""k"":1} some data") = Ok (bs "{""k"":1}")
+  /\ trim_apply 2 [10%N] ((bs "{""k"":1}") ++ [10%N])%list = bs "{""k"":1}"
+  (* re("(re\d+)",2,[1],","): the regexp library answered two matches with one group each *)
+  /\ (groups_ok 1 [1] && forallb (index_ok 1 15) [[0; 3; 0; 3]; [4; 7; 4; 7]] = true
+      /\ re_apply [1] (bs ",") false [[0; 3; 0; 3]; [4; 7; 4; 7]] (bs "re1 re2 re3 re4") [] = Ok (bs "re1,re2"))
+  (* a group that did not take part in the match is skipped: (a)?(b)? on "b", groups [2,1] *)
+  /\ re_apply [2; 1] [] false [[0; 1; -1; -1; 0; 1]] (bs "b") [] = Ok (bs "b").
+Proof. repeat split; vm_compute; reflexivity. Qed.
+
+Example c13_convert_utf8_bytes_nonvacuous :
+  convert (fun _ => true) false (bs "$\110\145\154\154\157!") = Ok (Some (bs "$Hello!"))
+  /\ convert (fun _ => true) false (bs "\xD0\xA1.xml") = Ok (Some [208; 161; 46; 120; 109; 108]%N)
+  /\ convert (fun _ => true) false (bs "\ud83d\ude00") = Ok (Some [240; 159; 152; 128]%N)
+  /\ convert (fun _ => true) false (bs "\u12 \x4 \") = Ok (Some (bs "\u12 \x4 "))
+  /\ convert (fun _ => true) false (bs "no escapes") = Ok None.
+Proof. repeat split; vm_compute; reflexivity. Qed.
+
+Example c13_hash_normalizer_nonvacuous :
+  normalize_by_tokenizer (fun _ => true) (bs "get {""a"":[1,{""b"":2}]} from 'x' and (unclosed")
+    = Ok (bs "get <curly_bracketed> from <single_quoted> and <parenthesized>").
+Proof. vm_compute; reflexivity. Qed.
+
+Example c13_tree_nonvacuous :
+  (* parse_re2 (?P<a>x)?(?P<b>y)?(z) on "z" with prefix p_: both named groups unmatched *)
+  parse_re2_do (JObj [(bs "message", JStr (bs "z")); (bs "k", JNull)]) [bs "message"] (bs "p_")
+               [[]; bs "a"; bs "b"; []] [bs "z"; []; []; bs "z"]
+    = Ok (JObj [(bs "k", JNull); (bs "p_a", JStr []); (bs "p_b", JStr [])])
+  /\ split_do false (JObj [(bs "items", JArr [JObj [(bs "m", JNum (bs "1"))]; JNum (bs "2"); JObj []])]) [bs "items"]
+    = Ok (4, [JObj [(bs "m", JNum (bs "1"))]; JObj []])
+  /\ hash_do (fun _ _ => 18446744073709551615) (JObj [(bs "message", JStr (bs "abc"))]) [([bs "message"], false, 2)] [bs "a"; bs "hash"]
+    = Ok (JObj [(bs "message", JStr (bs "abc")); (bs "a", JObj [(bs "hash", JNum (bs "18446744073709551615"))])])
+  /\ wf_json (JObj [(bs "n", JNum (bs "-1.5e+3"))]) = true /\ wf_json (JNum (bs "01")) = false /\ wf_json (JNum (bs ".5")) = false.
+Proof. repeat split; vm_compute; reflexivity. Qed.
